@@ -351,6 +351,7 @@ RunPoll(s) ==
 \* L0 characters whose fail_at-th growth step cannot allocate
 ENOMEM == -12
 IsStr(sk) == Len(sk) = 4
+StrL0(sk) == IF sk[4] < 0 THEN 0 ELSE sk[4]
 \* <<0, 0, "nest", g, 0>>: a recording sink that, when it gets its first data, first drains handle g (whose child has ended, so
 \* that this cannot block) on the same thread with sinks of its own, and only then looks at the buffer it was given:
 \* the library is re-entered from a sink; the outer call must be unaffected (its chunk intact, its bookkeeping its own)
@@ -476,8 +477,9 @@ RetRec(s) ==
        [] f.fn \in {"drain", "run"} /\ DOMAIN f.x # {} ->
             base @@ [r |-> f.r, dsum |-> DrainSummary(f), bad |-> 0]
                  @@ (IF f.x.nest # <<>> THEN [nest |-> f.x.nest] ELSE <<>>)
-                 @@ (IF IsStr(f.a[1]) THEN [str1 |-> <<f.a[1][4] + f.x.s1, f.a[1][4], 1>>] ELSE <<>>)
-                 @@ (IF IsStr(f.a[2]) THEN [str2 |-> <<f.a[2][4] + f.x.s2, f.a[2][4], 1>>] ELSE <<>>)
+                 \* (initial length -1: the caller's string pointer is NULL; after the call it is a string all the same, "" if nothing came)
+                 @@ (IF IsStr(f.a[1]) THEN [str1 |-> <<StrL0(f.a[1]) + f.x.s1, StrL0(f.a[1]), 1>>] ELSE <<>>)
+                 @@ (IF IsStr(f.a[2]) THEN [str2 |-> <<StrL0(f.a[2]) + f.x.s2, StrL0(f.a[2]), 1>>] ELSE <<>>)
        [] f.fn = "start" /\ f.r < 0 /\ ~StrictFailedStart -> [e |-> "ret", t |-> now, mon |-> <<>>, r |-> f.r]
        [] f.fn = "start" /\ f.r = 1 /\ f.x = <<"fork">> ->
             \* in the forked child: start returned 0; pid, wait and another start are rejected there (only destroy is allowed);
